@@ -19,6 +19,48 @@ def bruteBest (l : List Rat) : Nat × Rat :=
 /-- is the index estimate within one of the bin the edges prescribe -/
 def estNear (k e : Nat) : Bool := e == k || e == k + 1 || e + 1 == k
 
+/-! the criterion in binary64, with Lean's `Float` (the hardware operations): the program of `critListR` -/
+
+def cumsumF : List Float → List Float
+  | [] => []
+  | a :: l =>
+    let rec go (acc : Float) : List Float → List Float
+      | [] => []
+      | b :: r => (acc + b) :: go (acc + b) r
+    a :: go a l
+
+def critListF (hist : List Nat) (cs : List Float) : List Float :=
+  let h : List Float := hist.map Float.ofNat
+  let w1n := (cumsum (hist.map (fun (k : Nat) => (k : Rat)))).map (fun q => q.num.toNat)
+  let w2n := ((cumsum (hist.map (fun (k : Nat) => (k : Rat))).reverse).reverse).map (fun q => q.num.toNat)
+  let w1 := w1n.map Float.ofNat
+  let w2 := w2n.map Float.ofNat
+  let hc := List.zipWith (· * ·) h cs
+  let u1 := List.zipWith (· / ·) (cumsumF hc) w1
+  let u2 := (List.zipWith (· / ·) (cumsumF hc.reverse) w2.reverse).reverse
+  let ww := (List.zipWith (· * ·) w1n w2n.tail).map Float.ofNat
+  let du := List.zipWith (· - ·) u1 u2.tail
+  List.zipWith (fun a d => a * (d * d)) ww du
+
+/-- `np.argmax` on doubles: the first NaN if there is one, else the first maximum -/
+def argmaxF (l : List Float) : Nat :=
+  match l.findIdx? (·.isNaN) with
+  | some i => i
+  | none =>
+    match l with
+    | [] => 0
+    | a :: r =>
+      let (_, bi, _) := r.foldl (fun (acc : Nat × Nat × Float) v =>
+        let (k, bi, bv) := acc
+        if bv < v then (k + 1, k, v) else (k + 1, bi, bv)) (1, 0, a)
+      bi
+
+def U53 : Rat := 1 / ((2 ^ 53 : Nat) : Rat)
+def ETA : Rat := 1 / ((2 ^ 1075 : Nat) : Rat)
+
+/-- round up to a multiple of 2^-120 (for reporting only) -/
+def upTo (q : Rat) : Rat := ((q * ((2 ^ 120 : Nat) : Rat)).ceil : Rat) / ((2 ^ 120 : Nat) : Rat)
+
 def handle (op : String) (req : Json) : R Json := do
   match op with
   | "c15.hist" =>
@@ -27,31 +69,77 @@ def handle (op : String) (req : Json) : R Json := do
     if edges.length ≠ hist.length + 1 then throw "edges/hist length mismatch"
     if hist.length < 2 then throw "need at least two bins"
     let cs := centres edges
-    let mechN := critListN hist cs
+    -- the code's criterion: formed from the centres rescaled by 2^-exponent
+    let scs := scaledCentres edges
+    let mechN := critListN hist scs
     let idx := argmaxN mechN
+    let mechU := critListN hist cs
     let guard := decide (1 ≤ hist.getD 0 0) && decide (1 ≤ hist.getD (hist.length - 1) 0)
     let spec := specCritList hist cs
-    let (bi, bv) := bruteBest spec
+    let (bi, _) := bruteBest spec
+    -- what travels back is in units of 2^exponent (criterion: 4^exponent): numbers of ordinary size whatever the
+    -- scale of the data; `specCritList_scale`: this is the specification on the rescaled centres
+    let unit := pow2 (-(scaleExp edges))
+    let specU := spec.map (unit ^ 2 * ·)
+    let bv := specU.getD bi 0
     -- exact difference of the class means at the best cut (for the rounding allowance)
     let h : List Rat := hist.map (fun (k : Nat) => (k : Rat))
-    let hc := List.zipWith (· * ·) h cs
+    let hc := List.zipWith (· * ·) h scs
     let du := sumR (hc.take (bi + 1)) / sumR (h.take (bi + 1)) - sumR (hc.drop (bi + 1)) / sumR (h.drop (bi + 1))
     let nanAt := mechN.findIdx (·.isNone)
+    -- the float criterion (binary64, hardware operations) and its proved budget (`float_criterion_within_budget`)
+    let flt ← match fldOpt req "edge_bits" with
+      | none => pure Json.null
+      | some j => do
+        let bits ← asList asNat j
+        let slack ← getRat req "slack"
+        let efs := bits.map (fun b => Float.ofBits (UInt64.ofNat b))
+        if efs.map f64ToRat ≠ edges then throw "edge_bits/edges mismatch"
+        let centresF := List.zipWith (fun a b => (a + b) / 2.0) efs.tail efs
+        let scsF := centresF.map (fun c => c.scaleB (-(scaleExp edges)))
+        let critF := critListF hist scsF
+        let idxF := argmaxF critF
+        let bnd := critListB U53 ETA hist (scaledCentresB U53 ETA edges)
+        let eb := (bnd.getD bi (0, 0)).2
+        let within := (List.zipWith (fun (f : Float) (p : Rat × EB) =>
+          f.isFinite && decide (absQ (f64ToRat f - p.1) ≤ p.2.2)) critF (specU.zip bnd)).all id
+        let nearB := (List.range specU.length).filter (fun j =>
+          decide (bv ≤ specU.getD j 0 + slack * ((bnd.getD j (0, 0)).2 + eb)))
+        pure (jObj [
+          ("index", jNat idxF),
+          ("threshold_bits", jNat (centresF.getD idxF 0).toBits.toNat),
+          ("crit_bits", jList (fun (f : Float) => jNat f.toBits.toNat) critF),
+          ("all_finite", jBool (critF.all (·.isFinite))),
+          ("within_budget", jBool within),
+          ("budget_exact_is_spec", jBool (bnd.map Prod.fst == specU)),
+          ("scaled_centres_exact", jBool (scsF.map f64ToRat == List.zipWith (fun (f : Float) (_ : Rat) =>
+              pow2 (-(scaleExp edges)) * f64ToRat f) centresF scs)),
+          ("budget_rel_best", jRat (upTo (if bv = 0 then 0 else eb / bv))),
+          ("budget_rel_max", jRat (upTo (if bv = 0 then 0 else (bnd.foldl (fun m p => max m p.2) 0) / bv))),
+          ("near_budget", jList jNat nearB)])
     pure (jObj [
+      ("float", flt),
       ("index", jNat idx),
-      ("threshold", jRat (otsuHistN hist edges)),
+      ("threshold", jRat (otsuHistS hist edges)),
+      ("scale_exp", jInt (scaleExp edges)),
+      ("unscaled_index", jNat (argmaxN mechU)),
+      ("unscaled_threshold", jRat (otsuHistN hist edges)),
+      ("scaled_centres_below_one", jBool (scs.all (fun c => decide (absQ c < 1)))),
       ("centres", jList jRat cs),
       ("guard", jBool guard),
       ("first_nan", if nanAt < mechN.length then jNat nanAt else Json.null),
       ("nan_count", jNat (mechN.filter (·.isNone)).length),
       ("class_start", jList jNat ((List.range (hist.length - 1)).map (classStart hist))),
-      ("spec_crit", jList jRat spec),
+      ("spec_crit", jList jRat specU),
+      ("spec_units_agree", jBool ((List.range (hist.length - 1)).all (fun i =>
+        i % 37 != 0 || specU.getD i 0 == specCrit hist scs i))),
+      ("outer_scaled", jRat (unit * outerMag edges)),
       ("spec_best_index", jNat bi),
       ("spec_best", jRat bv),
       ("spec_best_du", jRat du),
-      ("mech_is_spec", jBool (mechN == spec.map some)),
+      ("mech_is_spec", jBool (mechU == spec.map some && mechN == specU.map some)),
       ("mech_zero_div_is_spec", jBool (critList hist cs == spec)),
-      ("model_index_is_best", jBool (spec.getD idx 0 == bv))])
+      ("model_index_is_best", jBool (specU.getD idx 0 == bv))])
   | "c15.data" =>
     -- every value twice: the bit pattern of the double (what the Float model computes with) and its exact value
     -- (null = NaN), so that `f64ToRat` itself is checked against the harness's exact conversion
@@ -96,7 +184,7 @@ def handle (op : String) (req : Json) : R Json := do
               ("first_edge_is_min", jBool (er.getD 0 0 == minL kept)),
               ("last_edge_is_max", jBool (er.getD n 0 == maxL kept)),
               ("float_compare_is_exact_compare", jBool fcmp),
-              ("threshold", jRat (otsuHistN hist er))]
+              ("threshold", jRat (otsuHistS hist er))]
     -- `x[~np.isnan(x)]` on the doubles, then the histogram; and the histogram of the array as given
     let np := mirror (maskSelect fs (fs.map (fun f => !f.isNaN)))
     let npRaw := if fs.any (·.isNaN) then mirror fs else Json.null
